@@ -109,6 +109,9 @@ RULES = {
     'P3t': ('rules_extra', 'tag-bit constants are complementary, never-written slots carry the tag bit, tag test / pin re-check compare unmodified counts'),
     'P9g': ('rules_extra', 'into_single: clone before dropping the original, test the count after the drop'),
     'P15m': ('rules_extra', 'index arithmetic helpers keep their shape: mask = wrap-1, index = count & mask, new count = (count + by) & count mask, past / get_previous, refreshed tail = head - scan'),
+    'P13e': ('rules_extra2', 'alloc / ToFree shapes: allocate = forgotten with_capacity(n); deallocate = from_raw_parts(p, 0, n); do_free drops num then deallocates num'),
+    'P12k': ('rules_extra2', 'token life cycle: created at the current epoch under the lock and registered; removed by retain(!=); announce -> unregister -> retire'),
+    'P15i': ('rules_extra2', 'initial state of a new queue: head = first stream = tail cache = last_pos = 0, one consumer, no pins'),
     'P12g': ('rules_extra', 'every operation that sees the epoch bit announces with its own token'),
     # ---- thorough-tier sweeps
     'W3s': ('rules_sweep', 'crate-wide: every slot-payload access is at a site one of the vetted entry graphs contains'),
@@ -121,7 +124,7 @@ RULES = {
 # under several of C01..C06 and C12 at once, so all of those checks evaluate all of them
 DATAPATH = ['P1a', 'P1b', 'P1c', 'P1d', 'P1e', 'P1f', 'P1g', 'P1h', 'P2a', 'P2b', 'P2e', 'P3a', 'P3b', 'P3c', 'P3e', 'P3f', 'P3g', 'P3t',
             'P4', 'P4a', 'P4e', 'P5a', 'P5b', 'P5c', 'P5d', 'P9b', 'P10a', 'P10b', 'P10f', 'P10g', 'P15', 'P15m', 'P15w', 'S1', 'W1', 'W2', 'W3', 'W5', 'W8',
-            'W11', 'W13', 'O1', 'O2']
+            'W11', 'W13', 'P15i', 'O1', 'O2']
 
 # rules of the futures adapters and of parking / waking: a broken one shows up under C13, C14 or C15 (and C11 when the
 # wake-up that follows a stream removal is lost), so those checks share them
@@ -133,19 +136,19 @@ PROPS = {
     'C02': DATAPATH,
     'C03': DATAPATH,
     'C04': DATAPATH + ['W14'],
-    'C05': DATAPATH + ['P13c', 'W14'],
+    'C05': DATAPATH + ['P13c', 'P13e', 'W14'],
     'C06': DATAPATH,
     'C07': ['P3f', 'P6b', 'W6', 'P2e', 'P8', 'P7a', 'P7b', 'P7f', 'S3', 'O3'],
     'C08': ['P7a', 'P7b', 'P7f', 'P7h', 'P2d', 'P8', 'P6b', 'P6c', 'P6d'],
-    'C09': ['P1a', 'P1b', 'P1h', 'P3f', 'P6b', 'P9b', 'P9c', 'P9f', 'P9g', 'P10a', 'P10b', 'P10e', 'P11a', 'P11b', 'P11c', 'S1', 'S3', 'W10', 'W13', 'C13map', 'P15', 'P15m', 'P15w', 'P7e', 'P7f'],
+    'C09': ['P1a', 'P1b', 'P1h', 'P3f', 'P6b', 'P9b', 'P9c', 'P9f', 'P9g', 'P10a', 'P10b', 'P10e', 'P11a', 'P11b', 'P11c', 'S1', 'S3', 'W10', 'W13', 'P15i', 'C13map', 'P15', 'P15m', 'P15w', 'P7e', 'P7f'],
     'C10': ['P10a', 'P10b', 'P10c', 'P10d', 'P10f', 'P10g', 'P15', 'P15m', 'P15w', 'P3t', 'P5a', 'S5', 'W9'],
     'C11': ['P9a', 'P9b', 'P9c', 'P9d', 'P9f', 'P10b', 'P10d', 'P10e', 'P10f', 'P10g', 'P1b', 'P11e', 'P11g', 'P12d'],
     'C12': DATAPATH + ['P9g', 'W6', 'W7'],
     'C13': FUTURES + ['C13map', 'P2c', 'P9c', 'W10'],
     'C14': FUTURES,
     'C15': FUTURES + ['P7a', 'S3'],
-    'C16': ['P6a', 'W9', 'W12', 'P12a', 'P12b', 'P12c', 'P12d', 'P12e', 'P12f', 'P12g', 'P12i', 'P13d', 'P10c', 'P10d', 'P10f', 'P9e'],
-    'C17': ['P6a', 'P12e', 'P12f', 'P12g', 'P12h', 'P12i', 'P13a', 'P13b', 'P13d', 'P9e', 'P10c', 'P10d'],
+    'C16': ['P6a', 'P12k', 'P13e', 'W9', 'W12', 'P12a', 'P12b', 'P12c', 'P12d', 'P12e', 'P12f', 'P12g', 'P12i', 'P13d', 'P10c', 'P10d', 'P10f', 'P9e'],
+    'C17': ['P6a', 'P12k', 'P13e', 'P12e', 'P12f', 'P12g', 'P12h', 'P12i', 'P13a', 'P13b', 'P13d', 'P9e', 'P10c', 'P10d'],
     'C18': ['P14', 'P14n'],
 }
 
